@@ -254,6 +254,53 @@ def run(ctx: Ctx):
                f"overwritten with 0 (gather index from the zeroed copy: {idx_ok}); with eos == 0 an out-of-vocabulary "
                f"token then ends the sequence instead of being ignored", rel, (bad_uses[0].lineno if bad_uses else kf.line),
                sample=[u(c)[:60] for c in raw_uses])
+    # packed kernel: the token matrix is (steps, batch) when dim == 0 and (batch, steps) when dim == 1. Everything that addresses
+    # the BATCH axis of the tokens - re-ordering by the packed sequence's sorted indices, the number of sequences, the layout flag
+    # handed to pack_padded_sequence - must follow `dim`: axis 1 - dim, batch_first == bool(dim). A hard-coded axis is right for one
+    # value of dim only.
+    from sa.inteval import NotEvaluable as _NE7, guarded_value as _gv7
+    rdp, pmp = ReachingDefs(kp.node), parent_map(kp.node)
+    dimn, tokn_p = kp.params[2].name, kp.params[1].name
+    axis_sites, bad_axes = 0, []
+
+    def _axis_val(e, d):
+        return _gv7(e, {dimn: d, "True": True, "False": False}, rdp, pmp)
+
+    def _is_tok(e):
+        return any(isinstance(x, ast.Name) and x.id == tokn_p for x in ast.walk(e))
+    for c in own_calls(kp.node):
+        cn = call_name(c)
+        ax = None
+        want = "batch"
+        if cn in ("torch.index_select",) and len(c.args) == 3 and _is_tok(c.args[0]):
+            ax = c.args[1]
+        elif isinstance(c.func, ast.Attribute) and c.func.attr == "index_select" and len(c.args) == 2 and _is_tok(c.func.value):
+            ax = c.args[0]
+        elif cn.endswith("pack_padded_sequence"):
+            bf = next((k.value for k in c.keywords if k.arg == "batch_first"), c.args[2] if len(c.args) > 2 else None)
+            if bf is not None:
+                ax, want = bf, "batch_first"
+        if ax is None:
+            continue
+        axis_sites += 1
+        try:
+            for d in (0, 1):
+                v = _axis_val(ax, d)
+                if want == "batch" and int(v) != 1 - d:
+                    bad_axes.append((c, d, v))
+                if want == "batch_first" and bool(v) != bool(d):
+                    bad_axes.append((c, d, v))
+        except (_NE7, TypeError, ValueError):
+            # bool(dim) and the like
+            if want == "batch_first" and u(ax).replace(" ", "") in (f"bool({dimn})", f"{dimn}==1", f"{dimn}!=0"):
+                continue
+            bad_axes.append((c, None, u(ax)))
+    col.floor("packed_batch_axis_sites", axis_sites, 1)
+    col.ob("G14", "S2", f"{rel}::_sequence_log_probs_ps::batch-axis-follows-dim", not bad_axes,
+           (f"`{u(bad_axes[0][0])[:90]}` addresses the batch axis of the tokens as {bad_axes[0][2]} when dim == {bad_axes[0][1]}: the "
+            f"tokens are (steps, batch) for dim == 0 and (batch, steps) for dim == 1, so the batch axis is 1 - dim; with a fixed axis "
+            f"the packed and the padded form disagree for the other layout") if bad_axes else "", rel,
+           bad_axes[0][0].lineno if bad_axes else kp.line, sample=axis_sites)
     col.ob("G12", "S2", f"{rel}::_sequence_log_probs_tensor::up-to-and-including-first-eos", okl and okm,
            f"positions are dropped under `{u(lm[0]) if lm else None}` with length `{u(lens[0].value) if lens else None}`; "
            f"expected position >= (first eos index + 1)", rel, kt.line)
